@@ -37,6 +37,9 @@ func (interp *Interpreter) SingleStepStateTransition(pc ProgramCounter) (ExitRea
 
 	// (v0.7.1  A.19) check opcode validity
 	opcodeData := interp.Program.InstructionData.isOpcode(pc)
+	if interp.Program.Bitmasks != nil && !interp.Program.Bitmasks.IsStartOfInstruction(int(pc)) {
+		opcodeData = 0 // not the start of an instruction: counts as trap
+	}
 	// (GP A.6) OOG when ρ < 1 (gas insufficient for next instruction)
 	if interp.Gas < 1 {
 		return ExitOOG, pc
@@ -99,18 +102,21 @@ func (interp *Interpreter) SingleStepInvokeDecodedBlocks(pc ProgramCounter) (Exi
 			endIdx = block.InstrEnd
 		} else if idx := prog.InstrIdxAt[pc]; idx >= 0 {
 			startIdx = int(idx)
-			foundTerminator := false
 			for endIdx = startIdx; endIdx < len(instrSlice); endIdx++ {
-				if IsBlockTerminator(instrSlice[endIdx].Opcode) {
+				in := &instrSlice[endIdx]
+				// the block ends with a terminator, with an invalid opcode (which acts as trap), or with
+				// its last instruction when it runs past the end of the code (implicit trap, handled above)
+				if IsBlockTerminator(in.Opcode) || !IsValidOpcode(in.Opcode) || int(in.PC)+int(in.SkipLen)+1 >= n {
 					endIdx++
-					foundTerminator = true
 					break
 				}
 			}
-			if !foundTerminator {
-				return ExitPanic, 0
-			}
 		} else {
+			// not the start of an instruction: the opcode there counts as trap, charged like any other
+			if interp.Gas < 1 {
+				return ExitOOG, pc
+			}
+			interp.Gas -= 1
 			return ExitPanic, 0
 		}
 
